@@ -309,7 +309,7 @@ def attribute(servers, grace=0.4):
     by_token, stray = {}, []
     for name, srv in servers.items():
         for ent in list(srv.log):
-            toks = set(TOKEN_RE.findall(ent[3]))
+            toks = set(TOKEN_RE.findall(ent[3])) if isinstance(ent[3], str) else set()
             if len(toks) == 1:
                 by_token.setdefault(toks.pop(), []).append(ent)
             else:
@@ -1062,6 +1062,12 @@ def main(argv=None):
         if unconfirmed:
             run.note('%d oracle failures did not show again when their group was run a second time (not reported)'
                      % unconfirmed)
+    no_msg = [e for e in stray if not isinstance(e[4], str)]
+    if no_msg:
+        run.fail('handler-on-malformed', 'a handler was invoked with no message at all: a frame the reader refused (malformed or '
+                 'truncated input) still reached the router', family='(unattributable: the call carries no text)',
+                 entries=[[str(x)[:80] for x in e] for e in no_msg[:5]], count=len(no_msg))
+    stray = [e for e in stray if isinstance(e[4], str)]
     if stray:
         # a handler was invoked with a payload that carries no (or more than one) connection token: the
         # model never does that (a payload is the text between SB and EB CR of its own connection).  The
